@@ -10,7 +10,7 @@ PROPS["C18"] = dict(
          "host and DSP paths interleaved with Run; dma = DMA/AHBM configuration fuzz over spaces, sizes (<= 2^20 elements), "
          "address high words, callbacks installed; host = in-contract API calls with extreme arguments. Oracles: ASan+UBSan "
          "(asan job), SharedMemory bounds observer, outcome classes, 25 s no-progress watchdog (confirmed by a second run). "
-         "distinct_nontrivial = distinct (workload, ending class) pairs observed",
+         "distinct_nontrivial = distinct (workload, ending class, deliberate assertion reached) triples observed",
     floors={Q: {"cases_prog": 20000, "cases_mmio": 20000, "cases_dma": 20000, "cases_host": 20000, "ending_assert": 1000, "ending_unimplemented": 500},
             T: {"cases_prog": 1000000, "cases_mmio": 1000000, "cases_dma": 1000000, "cases_host": 1000000, "ending_assert": 50000, "ending_unimplemented": 20000}},
     ready=True,
